@@ -18,11 +18,22 @@ FLAGS = [(True, False), (False, False), (False, True)]
 FLAG_NAMES = {(True, False): 'AS', (False, False): 'NP', (False, True): 'PS'}
 
 
+ACCESS_LOG = set()      # (attribute, function, file) for every attribute of a stub read from OUTSIDE the stub (backs A-subst)
+
+
 class Stub(Expression):
     """abstract child k: known to its parent only through its two flags and the marker it emits"""
     num_blocks = 0
     is_commented = False
     is_tagged = False
+
+    def __getattribute__(self, name):
+        if not (name.startswith('__') and name != '__dict__'):
+            import sys
+            f = sys._getframe(1)
+            if f.f_locals.get('self') is not self:
+                ACCESS_LOG.add((name, f.f_code.co_name, f.f_code.co_filename.rsplit('/', 1)[-1]))
+        return object.__getattribute__(self, name)
 
     def __init__(self, k, a_s, cps):
         self.k, self._as, self._cps = k, a_s, cps
